@@ -113,6 +113,7 @@ func main() {
 	showLog := flag.Bool("log", false, "print the full event log on replay")
 	nruns := flag.Bool("nruns", false, "print the number of runs of the tier and exit")
 	maxFiles := flag.Int("maxfiles", 3, "replay files per signature")
+	flushEvery := flag.Int("flush", 250, "emit a partial summary every N runs")
 	flag.Parse()
 	defer out.Flush()
 	runtime.GOMAXPROCS(2)
@@ -159,17 +160,47 @@ func main() {
 		Components  map[string]string `json:"components"`
 		RaceBuild   bool              `json:"race_build"`
 		Exhaustive  bool              `json:"exhaustive"`
+		From        int               `json:"from"`
+		To          int               `json:"to"`
 	}
-	a := agg{T: "summary", Probes: map[string]int{}, Faults: map[string]int{}, SiteHits: map[string]int{}, Rule: p.Rule(), Components: p.Components(), RaceBuild: simrt.RaceBuild}
-	if ex, ok := p.(interface{ Exhaustive(string) bool }); ok {
-		a.Exhaustive = ex.Exhaustive(*tier)
-	}
-	nontriv := map[string]bool{}
-	pairs := map[string]bool{}
-	traces := map[string]bool{}
+	var a agg
+	var nontriv, pairs, traces map[string]bool
 	perSig := map[string]int{}
-	t0 := time.Now()
+	var t0 time.Time
+	var winFrom int
+	reset := func(from int) {
+		a = agg{T: "summary", Probes: map[string]int{}, Faults: map[string]int{}, SiteHits: map[string]int{}, Rule: p.Rule(), Components: p.Components(), RaceBuild: simrt.RaceBuild}
+		if ex, ok := p.(interface{ Exhaustive(string) bool }); ok {
+			a.Exhaustive = ex.Exhaustive(*tier)
+		}
+		nontriv, pairs, traces = map[string]bool{}, map[string]bool{}, map[string]bool{}
+		t0 = time.Now()
+		winFrom = from
+	}
+	flush := func(to int) {
+		a.From, a.To = winFrom, to
+		for k := range nontriv {
+			a.Nontrivial = append(a.Nontrivial, k)
+		}
+		sort.Strings(a.Nontrivial)
+		for k := range pairs {
+			a.SwitchPairs = append(a.SwitchPairs, k)
+		}
+		sort.Strings(a.SwitchPairs)
+		for k := range traces {
+			a.Traces = append(a.Traces, k)
+		}
+		sort.Strings(a.Traces)
+		a.WallS = time.Since(t0).Seconds()
+		emit(a)
+		out.Flush()
+	}
+	reset(*from)
 	for idx := *from; idx < *to; idx += *stride {
+		if idx > winFrom && (idx-winFrom)%*flushEvery == 0 {
+			flush(idx)
+			reset(idx)
+		}
 		emit(map[string]interface{}{"t": "s", "i": idx})
 		out.Flush()
 		planSeed := worlds.Mix(*seed, idx, 1)
@@ -201,7 +232,7 @@ func main() {
 		if v.Budget {
 			a.Budget++
 		}
-		if len(a.Samples) < 3 && v.Sample != nil && (v.Nontrivial != "" || idx == *from) {
+		if len(a.Samples) < 3 && v.Sample != nil && (v.Nontrivial != "" || idx == winFrom) {
 			a.Samples = append(a.Samples, map[string]interface{}{"run_index": idx, "case": v.Sample, "outcome": orOK(v.Class)})
 		}
 		if v.Machinery != "" {
@@ -220,7 +251,6 @@ func main() {
 			perSig[v.Sig]++
 			file := ""
 			if *outDir != "" && perSig[v.Sig] <= *maxFiles {
-				// re-run with the recorded tape and full log to capture the trace
 				rf := replayFile{Property: p.ID(), Tier: *tier, Seed: *seed, RunIndex: idx, SchedSeed: schedSeed, Race: simrt.RaceBuild}
 				rf.Plan, _ = json.Marshal(plan)
 				if o != nil {
@@ -240,20 +270,7 @@ func main() {
 			emit(map[string]interface{}{"t": "violation", "i": idx, "class": v.Class, "sig": v.Sig, "detail": clip(v.Detail, 2000), "file": file})
 		}
 	}
-	for k := range nontriv {
-		a.Nontrivial = append(a.Nontrivial, k)
-	}
-	sort.Strings(a.Nontrivial)
-	for k := range pairs {
-		a.SwitchPairs = append(a.SwitchPairs, k)
-	}
-	sort.Strings(a.SwitchPairs)
-	for k := range traces {
-		a.Traces = append(a.Traces, k)
-	}
-	sort.Strings(a.Traces)
-	a.WallS = time.Since(t0).Seconds()
-	emit(a)
+	flush(*to)
 }
 
 var raceOff int64
